@@ -38,7 +38,14 @@ def gen_tree(r, d, typ, leaves):
             leaves.append('bool')
             return Tree('leaf', [], 'bool', len(leaves) - 1)
         if x < 0.6:
-            return Tree(r.choice(['=', '<', '~=', '<=', '>', '>=']), [gen_tree(r, d - 1, 'int', leaves), gen_tree(r, d - 1, 'int', leaves)], 'bool')
+            op = r.choice(['=', '<', '~=', '<=', '>', '>='])
+            if r.random() < 0.25:
+                # X is untyped: an integer may be compared with true/false (a boolean leaf) directly
+                kids = [gen_tree(r, d - 1, 'int', leaves), gen_tree(r, 0, 'bool', leaves)]
+                if r.random() < 0.5:
+                    kids.reverse()
+                return Tree(op, kids, 'bool')
+            return Tree(op, [gen_tree(r, d - 1, 'int', leaves), gen_tree(r, d - 1, 'int', leaves)], 'bool')
         if x < 0.85:
             op = r.choice(['and', 'or'])
             n = r.randint(2, 3)
